@@ -77,7 +77,7 @@ func RunAbmf(env *Env, prefix, in, out string) error {
 	}
 	cli := NewDiamClient(fmt.Sprintf("127.0.0.1:%d", env.AbPort), env.Pem, env.Key, "CCA")
 	defer cli.Close()
-	supi := func(u string) string { return "imsi-" + prefix + u }
+	supi := func(u string) string { return SupiOf(prefix, u) }
 	for _, b := range behs {
 		env.ResetState(0)
 		var keys []string
